@@ -454,6 +454,19 @@ func (e *env) generate(seq int) {
 	}
 	time.Sleep(5 * time.Millisecond)
 	e.h.Emit("read 0", "ok "+e.state()) // a last look: nothing arrives late (duplicates)
+	// every report made for a task that is still there has reached its waiter by now (the waiter has read until nothing
+	// was left and no sender waits): none was dropped on the way, however full the task's queue was when it was made
+	for _, t := range tasks {
+		if ch, open := e.chans[t]; open && len(ch) == 0 && e.pending[t] == 0 {
+			e.h.Res.OracleEvals++
+			for k, n := range e.reported {
+				if n > 0 && strings.HasPrefix(k, fmt.Sprintf("%d/", t)) {
+					e.fail("report-lost", fmt.Sprintf("a report (task/collector/payload %s) made for task %d, which was never removed, did not reach its waiter although the waiter drained the queue", k, t))
+					break
+				}
+			}
+		}
+	}
 }
 
 func freePort() string {
